@@ -128,6 +128,50 @@ def verify_variant(run, options, label, seen, only=None):
     return obs
 
 
+def py_proof(run, args):
+    """Python leg under contract (contracts/c14_py.py): the integer / bit / byte-run primitives of the REAL rendered
+    nunavut_support.py, every bit length 1..64 x every cursor position mod 8, symbolic buffer, position and value (E-PY)."""
+    import time as _t
+    from contracts import c14_py as KP
+    from props.common import SRC
+    from vk import render
+    wd = pathlib.Path(tempfile.mkdtemp(prefix="vk_c14pp_"))
+    try:
+        render.render_support("py", wd, {})
+        text = (wd / "nunavut_support.py").read_text()
+    finally:
+        shutil.rmtree(wd, ignore_errors=True)
+    tasks = KP.plan(args.tier)
+    t0 = _t.time()
+    with multiprocessing.get_context("fork").Pool(14) as pool:
+        out = pool.map(KP.generate, [(t, text, str(SRC)) for t in tasks], chunksize=4)
+    obs = []
+    fns = set()
+    assumed = set()
+    for task, target, o, info, err in out:
+        if err:
+            run.undecide(f"py:{task}: {err[:300]}")
+            continue
+        fns.add(target.split(":")[1])
+        assumed.update(info.get("assumed", []))
+        if len(o) + info.get("trivial", 0) == 0 or info.get("returns", 0) + info.get("raises", 0) == 0:
+            run.undecide(f"py:{task}: vacuity guard (obligations={len(o)}, exits={info.get('returns', 0) + info.get('raises', 0)})")
+        for x in o:
+            x.name = "py:" + x.name
+        obs.extend(o)
+    for f in sorted(fns):
+        run.add_function(f"nunavut_support.py:{f}")
+    run.notes["python_primitive_cases"] = len(tasks)
+    run.notes["python_vc_generation_s"] = round(_t.time() - t0, 1)
+    res = smt.solve_all(obs)
+    run.add_results(res)
+    # a failed obligation of the Python leg: the bounded native run (py_native) is the replay on the real code
+    run.notes["python_failed_obligations"] = [r.ob.name for r in res if not r.ok][:20]
+    for a in sorted(assumed) + KP.ASSUMED_CALLEES:
+        run.assume("py: " + a)
+    return [r for r in res if not r.ok]
+
+
 def py_native(run, args):
     """Python leg, bounded stand-in (contracts/c14_py_native.py): every Serializer/Deserializer/ZeroExtendingBuffer primitive
     of the REAL rendered nunavut_support.py, executed in the overlay interpreter (NumPy from the offline wheelhouse)."""
@@ -229,7 +273,20 @@ def main():
                         "buffer sizes 0..12 x offsets x lengths 0..64 x 4 byte patterns, dirty destinations; every half value; 200000 float32 patterns", n, w is None, "" if w is None else w["why"][:400])
         if w is not None:
             run.fail(report.Failure(f"native[{label},{std}]#c++-bitspan-primitives-agree-with-the-proved-c-primitives", "post", w["why"][:600], {"witness": w}, True))
+    py_failed = py_proof(run, args)
     py_native(run, args)
+    # an undischarged Python obligation is reported with the native run's failing input when that run found one for the same
+    # primitive, otherwise as no-failing-input-found (sat) / undecided (unknown)
+    seen_py = set()
+    for r in py_failed:
+        fn = r.ob.function.split(".")[-1]
+        base = r.ob.name.split("/p")[0]
+        if base in seen_py or any(f.obligation.startswith(f"native[py]:{fn}#") for f in run.failures):
+            seen_py.add(base)
+            continue
+        seen_py.add(base)
+        if r.status == "sat":
+            run.fail(report.Failure(base, r.ob.kind, f"{r.ob.name} not discharged (sat); model {dict(list(r.model.items())[:6])}", {"model": r.model, "solver_output": r.raw[:2000], "smt2": r.ob.smt2()}, False))
     for work in WORKDIRS.values():
         shutil.rmtree(work, ignore_errors=True)
     run.notes["option_variants"] = [v[0] for v in variants]
